@@ -111,7 +111,7 @@ ULevelFields(lvl) ==
            c  == IF UFlag(t, "optional") THEN UOpt(c0) ELSE c0 IN
        IF UStr(t, "grouped") # "" /\ named # <<>>
        THEN SubSeq(named, 1, Len(named) - 1) \o <<UAnd(<<named[Len(named)], c>>)>>
-       ELSE named \o <<c>>
+       ELSE named \o (IF UHas(t, "pre_pos") THEN [i \in DOMAIN t.pre_pos |-> UPosMeta(t.pre_pos[i])] ELSE <<>>) \o <<c>>
   ELSE named
 ULevelMeta(lvl) == USeq(ULevelFields(lvl))
 
